@@ -25,8 +25,12 @@ def lst2bas(ctx, text):
     p = os.path.join(d, stem + ext)
     with open(p, "wb") as f:
         f.write(text.encode("utf-8"))
-    status, _ = run_cli(ListingToBasicCli().run, [p + suffix])
     bas = os.path.join(d, stem + "bas")
+    if len(text) % 4 == 1:
+        # an older, longer result at the destination is replaced
+        with open(bas, "wb") as f:
+            f.write(b"\rOLDER RESULT " * 400)
+    status, _ = run_cli(ListingToBasicCli().run, [p + suffix])
     data = open(bas, "rb").read() if os.path.exists(bas) else None
     return status, data, d
 
@@ -54,8 +58,11 @@ def bas2lst(ctx, data, dos, d=None):
         with open(other, "wb") as f:
             f.write(odata)
         argv = [other + ",a", p + suffix] if h % 2 else [p + suffix, other + ",a"]
-    status, _ = run_cli(BasicToListingCli().run, argv + (["--dos"] if dos else []))
     lst = os.path.join(d, stem + "lst")
+    if h % 4 == 2:
+        with open(lst, "wb") as f:
+            f.write(b"older, longer listing\n" * 300)
+    status, _ = run_cli(BasicToListingCli().run, argv + (["--dos"] if dos else []))
     out = open(lst, "rb").read() if os.path.exists(lst) else None
     if other is not None and status == "ok0":
         eol = b"\r\n" if dos else b"\n"
@@ -118,7 +125,7 @@ def bytes_cases(ctx, res, stream, datas, dos):
 def gen_text(rng):
     lines = []
     for _ in range(rng.choice([0, 1, 2, 4, 7])):
-        k = rng.choice([0, 0, 1, 3, 8, 20])
+        k = rng.choice([0, 0, 1, 3, 8, 20]) if rng.random() < 0.97 else rng.choice([254, 255, 256, 257, 300, 1000])   # DATA lines can be long
         l = "".join(rng.choice(CHARS) for _ in range(k))
         l += rng.choice(["", "", " ", "  \t", "\x0c", "\xa0", "\x1f"])
         lines.append(l)
@@ -147,7 +154,11 @@ def run(ctx, res):
     datas = []
     for _ in range(ctx.n(800, 6000)):
         k = ctx.rng.choice([0, 1, 2, 5, 12, 40])
-        datas.append(bytes(ctx.rng.choice([13, 10, 13, 10, 65, 32, 34, 0, 200, 255, 9]) for _ in range(k)))
+        if ctx.rng.random() < 0.6:
+            datas.append(bytes(ctx.rng.choice([13, 10, 13, 10, 65, 32, 34, 0, 200, 255, 9]) for _ in range(k)))
+        else:
+            # "any ASCII BASIC file": every byte value, control characters (1A, the end-of-file mark of other systems, 1B, 7F) included
+            datas.append(bytes(ctx.rng.choice([13, 10, 0x1A, 0x1B, 0x7F, 4, 3, ctx.rng.randrange(256), ctx.rng.randrange(256), ctx.rng.randrange(32, 127)]) for _ in range(k)))
     bytes_cases(ctx, res, "byte_files", datas[: len(datas) // 2], False)
     bytes_cases(ctx, res, "byte_files", datas[len(datas) // 2:], True)
     res.sample({"data": datas[3].hex()})
